@@ -150,6 +150,22 @@ def engine_oracle(engines, check_align=False):
         return None
     return f
 
+def oracle_c11(line, impl, mkv, ikv=None, model=None):
+    """Cranelift-compiled code: an access outside stack/packet/metadata traps before it happens, inside it is performed"""
+    ikv = ikv or {}
+    val = ikv.get("clif")
+    if val is None: return None
+    v0 = val.split(":code=")[0]; sem = mkv.get("clifsem")
+    if v0.startswith("compile"): return None if v0 == sem else "compile outcome '%s' where the model says '%s'" % (v0, sem)
+    if sem == "trap":
+        if v0 == "sig:4": return None
+        return "Cranelift-compiled code did not trap on an access outside its regions: '%s'" % v0[:100]
+    if sem is not None and sem.startswith("ok"):
+        if v0.startswith("sig:") or v0 == "err": return "Cranelift-compiled code trapped/faulted ('%s') on an access entirely inside its regions" % v0
+        got = v0.partition(":align=")[0]
+        if mkv.get("claim") == "in" and got != sem: return "Cranelift-compiled code gives '%s' where the model gives '%s'" % (got[:90], sem[:90])
+    return None
+
 def oracle_no_panic(line, impl, model_kv, impl_kv=None, model=None):
     if impl == "panic" or impl.startswith("crash"): return "the interpreter panicked / crashed on a program the verifier accepted"
     return None
@@ -200,6 +216,25 @@ PROPS = {
              "(end - start = len, first and last byte through the slots); plus random programs per kind. The fixed-metadata buffer's real address is learnt by a probe program. "
              "Non-trivial: distinct configuration x probe that ran to a value.",
         trusted=EXEC_TRUST,
+    ),
+    "C10": dict(
+        suites=["api"], oracle=oracle_no_panic, level="proof", model_is_spec=True,
+        nontrivial=lambda line, impl: ("sp:" in line) and (";x" in line or "=x" in line),
+        rule="suite api: 20,000 (thorough 400,000) random histories of length 1..40 over {new(None|prog), set_program(valid | invalid | valid-only-for-another-verifier, with new fixed offsets), "
+             "set_verifier(accept-all | reject-all | custom), register_helper (3 ids x 3 functions, re-registration), set_stack_usage_calculator, jit_compile, cranelift_compile, execute, execute_jit, "
+             "execute_cranelift} on the four VM kinds; pool of 10 programs with distinguishable results (constants, helper calls, a program only accept-all/custom admit, invalid ones, and for the "
+             "fixed-metadata VM a program reading its two slots so that a failed load that disturbed the offsets is visible); every call's Ok/Err/value compared with Vm.step. "
+             "Non-trivial: distinct history containing a load and an execution.",
+        trusted=["programs that would be unsafe to run (no exit, register r11) are only ever offered to verifiers that reject them (generator mini-model)"],
+    ),
+    "C11": dict(
+        suites=["exec-clifprobe"], oracle=oracle_c11, level="proof", model_is_spec=True,
+        nontrivial=lambda line, impl: impl.split()[0] in ("ok", "err:oob", "err:unaligned"),
+        rule="suite exec-clifprobe: the C02 boundary probes (every offset within 9 bytes of both ends of packet, metadata buffer and stack, null and wrap-around addresses, ldx/st/stx/xadd/ldabs/ldind x widths, "
+             "6 layouts incl. empty packet / metadata) executed as Cranelift-compiled code in forked children, every 4th probe in the quick tier: an access the model's bounds check (clifBoundsOk = OwnMemory over "
+             "stack/packet/metadata by C11_boundsOk_iff) refuses must kill the child with SIGILL (trap), an admitted one must complete with the model's value and buffer digests; a misaligned atomic add inside "
+             "a region is performed. Non-trivial: distinct probe that reached the access.",
+        trusted=EXEC_TRUST + ["Cranelift lowers `trapz` to a trapping instruction (observed as SIGILL)"],
     ),
     "C12": dict(
         suites=["exec-accepted-engines", "exec-engines#farjump,calls,helpers"], oracle=engine_oracle(["jit", "clif"]), level="proof", model_is_spec=True,
